@@ -53,10 +53,17 @@ type symHeap struct {
 	terms map[string]Term
 }
 
+// (bodyStart: script position after the parameters and requires have been assumed)
+
 type opaqueInfo struct {
 	name  string
 	keys  []string
 	sorts []Sort
+	// recursive ospecs are translated twice: pass 1 learns the heap footprint
+	building  bool
+	pass      int
+	recursive bool
+	reduce    map[int]string // heap key index -> template X (over parameter leaves p?i_k): the component is read only as (select h X)
 }
 
 func (s *State) clone() *State {
@@ -77,6 +84,7 @@ type FuncVC struct {
 	cf       *ContractFile
 	enc      *Enc
 	sc       *Script
+	bodyStart int // script position after the parameters and requires have been assumed
 	obls     []*Obligation
 	entry    map[string]Term
 	entrySorts map[string]Sort
@@ -776,6 +784,10 @@ func (fr *Frame) oblige(kind string, reach Term, cond Term, desc string) {
 		src = fmt.Sprintf("%s:%d", shortPath(p.Filename), p.Line)
 	}
 	vc.obls = append(vc.obls, &Obligation{Name: name, Kind: kind, Func: vc.funcName(), Pos: vc.sc.Pos(), Goal: goal, Script: vc.sc, Src: src, Desc: desc, VC: vc})
+	// assert-then-assume: execution continues past this point only if the
+	// check held, so later obligations may rely on it (a failure is reported
+	// once, here, instead of cascading)
+	vc.sc.Assume(goal, "checked above ("+name+")")
 }
 
 // obligeParts emits one obligation per conjunct of the clause.
@@ -803,6 +815,9 @@ func (fr *Frame) obligeNamed(name, kind string, reach Term, cond Term, desc stri
 		src = fmt.Sprintf("%s:%d", shortPath(fr.cf.Path), line)
 	}
 	vc.obls = append(vc.obls, &Obligation{Name: full, Kind: kind, Func: vc.funcName(), Pos: vc.sc.Pos(), Goal: goal, Script: vc.sc, Src: src, Desc: desc, VC: vc})
+	if kind == "call-pre" || kind == "call-assert" {
+		vc.sc.Assume(goal, "checked above ("+full+")")
+	}
 }
 
 func shortPath(p string) string {
